@@ -124,6 +124,16 @@ pub fn run(seed: u64, tier: &str, filter: &str, count: Option<u64>, out: &mut dy
                     }
                 }
             }
+            if name.starts_with("FLOATVECTOR.SORT") && r.chance(1, 2) {
+                // total_cmp orders negative NaNs first and positive ones last: exercise both
+                if let Some(v) = st.float_vector_stack.get_mut(0) {
+                    for x in v.values.iter_mut() {
+                        if x.is_nan() && r.chance(1, 2) {
+                            *x = f32::from_bits(0xffc0_0000);
+                        }
+                    }
+                }
+            }
             out(format!("#c exec {} {}", name, case));
             out(observe_exec(&mut iset, name, st));
         }
